@@ -223,6 +223,7 @@ Proof.
   assert (Hfb2 : forall k0 a0, sb = (FBody k0, a0) -> k0 <= size (l2 :: p)).
   { intros k0 a0 E. inversion E. lia. }
   specialize (H3 Hfb2).
+  match goal with |- context [add_head p ?x ?y true] => change (add_head p x y true) with (add_head p l2 sb true) end.
   destruct (add_head p l2 sb true) as [l3 cb].
   destruct H3 as (I3 & Hext3 & Hfrm3 & Hdefs3 & Hhead3 & Hoth3 & Hback3 & Hcb & Hcr3 & _ & Hsz3).
   destruct (Hcr3 eq_refl) as [Hcbp Hshape3].
@@ -247,7 +248,7 @@ Proof.
   destruct Hf as (I4 & Hx34 & Habs4).
   assert (Hx03 : extA (l :: p) (l3 :: p)).
   { intros j Hj. rewrite Hx23; [|apply Hfrm12, Hfrm1; exact Hj].
-    rewrite Hx12; [|apply Hfrm1; exact Hj]. apply extN_extA in Hext1; [apply Hext1; exact Hj|]. apply Hext1. }
+    rewrite Hx12; [|apply Hfrm1; exact Hj]. exact (extN_extA _ _ (Hext1 _) j Hj). }
   unfold st_post; splits.
   - exact I4.
   - intros j Hj. rewrite Hx34; [apply Hx03; exact Hj|]. apply Hfrm3, Hfrm12, Hfrm1. exact Hj.
